@@ -1,4 +1,6 @@
 import PyCraft.Props.C01
+import PyCraft.Props.C01Dispatch
+import PyCraft.Props.C01DispatchLive
 #print axioms PyCraft.C01.frameSends_flatten
 #print axioms PyCraft.C01.read_segmentation_invariant
 #print axioms PyCraft.C01.read_bytewise
@@ -11,3 +13,24 @@ import PyCraft.Props.C01
 #print axioms PyCraft.C01.unknown_id_skipped
 #print axioms PyCraft.C01.threshold_cases
 #print axioms PyCraft.C01.data_length_pos_iff_compressed
+#print axioms PyCraft.C01Dispatch.dispatch_is_cut_of_raw
+#print axioms PyCraft.C01Dispatch.dispatch_is_cut_of_raw_encrypted
+#print axioms PyCraft.C01Dispatch.dispatch_segmentation_invariant
+#print axioms PyCraft.C01Dispatch.dispatch_stream
+#print axioms PyCraft.C01Dispatch.dispatch_stream_encrypted
+#print axioms PyCraft.C01Dispatch.unknown_skipped_without_disturbing
+#print axioms PyCraft.C01Dispatch.known_read_error_ends_loop
+#print axioms PyCraft.C01Dispatch.dispatch_unknown_interleaved
+#print axioms PyCraft.C01Dispatch.dispatch_unknown_interleaved_conn
+#print axioms PyCraft.C01Dispatch.reader_flag_iff_writer_threshold
+#print axioms PyCraft.C01Dispatch.options_history
+#print axioms PyCraft.C01Dispatch.roundtrip_conn
+#print axioms PyCraft.C01Dispatch.roundtrip_conn_encrypted
+#print axioms PyCraft.C01Dispatch.writer_threshold_while_reader_off_misreads
+#print axioms PyCraft.C01Dispatch.mutant_unknown_calls_read_refuted
+#print axioms PyCraft.C01Dispatch.mutant_writer_ignores_enabled_refuted
+#print axioms PyCraft.C01Dispatch.mutant_reader_tests_threshold_refuted
+#print axioms PyCraft.C01Dispatch.mutant_connect_keeps_enabled_refuted
+#print axioms PyCraft.C01Dispatch.live_write_probes
+#print axioms PyCraft.C01Dispatch.live_opt_probes
+#print axioms PyCraft.C01Dispatch.live_read_probes
